@@ -10,7 +10,7 @@ from ..progmc import driver, jobs as J
 
 P = "C09"
 PLACEMENTS = ["root_body", "root_helper", "kept_body", "kept_helper", "two_loads", "kept_datafn", "same_path_twice", "kept_body_local_import", "kept_body_thread",
-              "loaded_value_to_inner_keep", "kept_body_other_spelling", "method_on_loaded", "method_with_path_like_arg"]
+              "loaded_value_to_inner_keep", "kept_body_other_spelling", "method_on_loaded", "method_with_path_like_arg", "loaded_value_through_map"]
 PRODUCERS = ["datafn", "keepcall", "keepcall_shared_fn", "datafn_in_keep_args"]
 
 
@@ -50,6 +50,12 @@ def make_spec(placement, producer):
         # a method is called on the loaded value where it is loaded: dds.load(p).upper() / .strip('/zzz')
         meth = "upper()" if placement == "method_on_loaded" else "strip('/zzz')"
         funcs.append({"name": "K", "module": "main", "params": [], "body": [dict(load, method=meth)]})
+        reader_items = [{"k": "keep", "path": "/l/k", "fn": "K", "args": []}]
+    elif placement == "loaded_value_through_map":
+        # the loaded value reaches a keep through a function that is only named: list(map(HK, [loaded]))
+        funcs.append({"name": "G", "module": "main", "params": [["x", None]], "body": []})
+        funcs.append({"name": "HK", "module": "main", "params": [["v", None]], "body": [{"k": "keep", "path": "/l/hk", "fn": "G", "args": [{"param": "v"}]}]})
+        funcs.append({"name": "K", "module": "main", "params": [], "body": [load, {"k": "raw", "text": "_r = list(map(HK, [_0]))[0]"}, {"k": "const", "expr": "_r"}]})
         reader_items = [{"k": "keep", "path": "/l/k", "fn": "K", "args": []}]
     elif placement == "kept_body_other_spelling":
         # the reader spells the path with empty segments ('/l//p/'): it is the same path
